@@ -1,0 +1,113 @@
+//go:build verif
+
+// Machine-checked contracts for package avro/null (comment-only; read by /verif/govc).
+//
+// The wrappers of github.com/unravelin/null are {value; Valid bool} structs: null.Int and null.Float keep the value
+// at offset 0 (8 bytes) and Valid at 8; null.Bool keeps Bool at 0 and Valid at 1; null.String keeps the string
+// header at 0 (16 bytes) and Valid at 16.  A wrapper is written as the null branch exactly when !Valid (Omit); its
+// value is written/read with the codec of the underlying Avro type.
+
+package null
+
+//@ spec wfRB(r ptr) bool = r != nil && 0 <= r.i && r.i <= len(r.buf)
+//@ spec rdable(p ptr, n int) bool = p != nil && rawalloc(p, n)
+
+// ---------------------------------------------------------------- null.Int
+//@ func (nullIntCodec).Read
+//@   props C06
+//@   let i0 := data.i, n := len(data.buf)
+//@   requires wfRB(data) && rdable(p, 16)
+//@   ensures [C03,C04,C06] i0 <= data.i && data.i <= n
+//@   ensures [C03,C04] err == nil ==> uvOK(data.buf, i0, data.i) && data.i == vend(data.buf, i0)
+//@   ensures [C03,C02] err == nil ==> memint(p, 8) == unzz(pv(data.buf, i0, data.i - i0)) && mem8(uintptr(p) + 8) == 1
+//@   modifies data.i, M[p, 16]
+
+//@ func (nullIntCodec).Omit
+//@   requires rdable(p, 16)
+//@   ensures [C02,C13] res == (mem8(uintptr(p) + 8) == 0)
+//@   pure
+
+//@ func (nullIntCodec).Write
+//@   let b0 := w.buf, v := memint(p, 8)
+//@   requires w != nil && rdable(p, 16)
+//@   ensures [C13,C02] len(w.buf) == len(b0) + uvlen(zz(v))
+//@   ensures [C13,C02] forall k int :: 0 <= k && k < len(b0) ==> w.buf[k] == old(b0[k])
+//@   ensures [C13,C02] forall j int :: 0 <= j && j < uvlen(zz(v)) ==> w.buf[len(b0)+j] == uvbyte(zz(v), j)
+//@   modifies w.buf, BH[w.buf]
+
+// ---------------------------------------------------------------- null.Bool
+//@ func (nullBoolCodec).Read
+//@   props C06
+//@   let i0 := data.i, n := len(data.buf)
+//@   requires wfRB(data) && rdable(ptr, 2)
+//@   ensures [C03,C04,C06] (i0 < n) <==> err == nil
+//@   ensures [C03,C04] err == nil ==> data.i == i0 + 1 && mem8(ptr) == (data.buf[i0] != 0 ? 1 : 0) && mem8(uintptr(ptr) + 1) == 1
+//@   modifies data.i, M[ptr, 2]
+
+//@ func (nullBoolCodec).Omit
+//@   requires rdable(p, 2)
+//@   ensures [C02,C13] res == (mem8(uintptr(p) + 1) == 0)
+//@   pure
+
+//@ func (nullBoolCodec).Write
+//@   let b0 := w.buf
+//@   requires w != nil && rdable(p, 2)
+//@   ensures [C13,C02] len(w.buf) == len(b0) + 1 && w.buf[len(b0)] == (mem8(p) != 0 ? 1 : 0)
+//@   ensures [C13,C02] forall k int :: 0 <= k && k < len(b0) ==> w.buf[k] == old(b0[k])
+//@   modifies w.buf, BH[w.buf]
+
+// ---------------------------------------------------------------- null.Float as double and as float
+//@ func (nullDoubleCodec).Read
+//@   props C06
+//@   let i0 := data.i, n := len(data.buf)
+//@   requires wfRB(data) && rdable(ptr, 16)
+//@   ensures [C03,C04,C06] (8 <= n - i0) <==> err == nil
+//@   ensures [C03,C04] err == nil ==> data.i == i0 + 8 && memuint(ptr, 8) == lebytes(data.buf, i0, 8) && mem8(uintptr(ptr) + 8) == 1
+//@   modifies data.i, M[ptr, 16]
+
+//@ func (nullDoubleCodec).Omit
+//@   requires rdable(p, 16)
+//@   ensures [C02,C13] res == (mem8(uintptr(p) + 8) == 0)
+//@   pure
+
+//@ func (nullDoubleCodec).Write
+//@   let b0 := w.buf
+//@   requires w != nil && rdable(p, 16)
+//@   ensures [C13,C02] len(w.buf) == len(b0) + 8 && lebytes(w.buf, len(b0), 8) == memuint(p, 8)
+//@   ensures [C13,C02] forall k int :: 0 <= k && k < len(b0) ==> w.buf[k] == old(b0[k])
+//@   modifies w.buf, BH[w.buf]
+
+//@ func (nullFloatCodec).Read
+//@   props C06
+//@   let i0 := data.i, n := len(data.buf)
+//@   requires wfRB(data) && rdable(ptr, 16)
+//@   ensures [C03,C04,C06] (4 <= n - i0) <==> err == nil
+//@   ensures [C03,C04] err == nil ==> data.i == i0 + 4 && mem8(uintptr(ptr) + 8) == 1
+//@   ensures [C03] err == nil && !isnan(uint32(lebytes(data.buf, i0, 4))) ==> memuint(ptr, 8) == to64(uint32(lebytes(data.buf, i0, 4)))
+//@   modifies data.i, M[ptr, 16]
+
+//@ func (nullFloatCodec).Omit
+//@   requires rdable(p, 16)
+//@   ensures [C02,C13] res == (mem8(uintptr(p) + 8) == 0)
+//@   pure
+
+// the Avro float written is the float32 nearest to the wrapper's float64 value (what Read widens back)
+//@ func (nullFloatCodec).Write
+//@   let b0 := w.buf
+//@   requires w != nil && rdable(p, 16)
+//@   ensures [C13,C02] len(w.buf) == len(b0) + 4
+//@   ensures [C13,C02] !isnan(memuint(p, 8)) ==> uint32(lebytes(w.buf, len(b0), 4)) == to32(memuint(p, 8))
+//@   ensures [C13,C02] forall k int :: 0 <= k && k < len(b0) ==> w.buf[k] == old(b0[k])
+//@   modifies w.buf, BH[w.buf]
+
+// ---------------------------------------------------------------- null.String
+//@ func (nullStringCodec).Omit
+//@   requires rdable(p, 24)
+//@   ensures [C02,C13] res == (mem8(uintptr(p) + 16) == 0)
+//@   pure
+
+// ---------------------------------------------------------------- null.Time
+//@ func (nullTimeCodec).Omit
+//@   requires rdable(p, 32)
+//@   ensures [C02,C13] res == (mem8(uintptr(p) + 24) == 0)
+//@   pure
